@@ -1369,7 +1369,7 @@ class CodeGenerator(NodeVisitor):
         with_frame.symbols.analyze_node(node)
         self.enter_frame(with_frame)
         for target, expr in zip(node.targets, node.values, strict=False):
-            self.newline()
+            self.newline(node)
             self.visit(target, with_frame)
             self.write(" = ")
             self.visit(expr, frame)
